@@ -136,6 +136,17 @@ def side_case(seed, quick=True):
             cores.append(c)
         state = TT(cores).ortho_right()
         state = (1 / state.norm()) * state
+        if cplx and n >= 2 and rng.random() < 0.3:
+            # mixed dtypes: a real (float64) first core -- a real product qubit in front -- followed by complex cores
+            v0 = nrng.standard_normal(2)
+            c0 = (v0 / np.linalg.norm(v0)).reshape(1, 2, 1, 1)
+            rest = TT(cores[1:])
+            rest.cores[0] = rest.cores[0][:1]               # closed left boundary
+            rest.ranks[0] = 1
+            rest = rest.ortho_right()
+            rest = (1 / rest.norm()) * rest
+            state = TT([c0] + [c.copy() for c in rest.cores])
+            desc['mixed_dtype'] = True
         k = rng.randint(1, n)
         measured = sorted(rng.sample(range(n), k))
         given = list(measured)
@@ -165,7 +176,7 @@ def side_case(seed, quick=True):
                 return 'relative frequencies do not sum to one', desc
             return None, desc
         # frequencies: many samples, chi-square-type distance to the exact marginal (fixed seed: deterministic)
-        S = 4000 if quick else 40000
+        S = 5000 if quick else 40000          # not a multiple of a power of two (whole batches and a remainder)
         np.random.seed(rng.getrandbits(32))
         samples, probs = qc.sampling(state, list(given), S)
         if not unchanged([state], snap):
